@@ -177,6 +177,98 @@ Proof.
   rewrite (pid_count_split q now (pm_entries pm)). lia.
 Qed.
 
+(* ---------------- the tally over a whole history of one torrent ----------------
+   any sequence of announces and cleaning passes on one peer map; `stable` records whether every
+   stored entry that an announce replaced or removed carried the announced peer id (the recorded
+   finding "tally-peer-id-change" is exactly the histories where it is false) *)
+Inductive pmop :=
+| PAnn (key : N) (st : status) (pid until : N) (take o1 o2 : nat)
+| PClean (now : N).
+
+Fixpoint pm_hist (cap : nat) (shrink : bool) (pm : pmap) (ops : list pmop)
+  : outcome (pmap * list statmsg * bool) :=
+  match ops with
+  | [] => Ok (pm, [], true)
+  | PAnn key st pid until take o1 o2 :: t =>
+      match pm_announce cap pm key st pid until take o1 o2 with
+      | Ok (pm1, _, removed) =>
+          match pm_hist cap shrink pm1 t with
+          | Ok (pm2, msgs, stable) =>
+              Ok (pm2, announce_msgs true st pid removed ++ msgs,
+                  (match removed with Some p => N.eqb (p_id p) pid | None => true end) && stable)
+          | Panic => Panic
+          end
+      | Panic => Panic
+      end
+  | PClean now :: t =>
+      match pm_clean cap shrink true pm now with
+      | Ok (pm1, _, m) =>
+          match pm_hist cap shrink pm1 t with
+          | Ok (pm2, msgs, stable) => Ok (pm2, m ++ msgs, stable)
+          | Panic => Panic
+          end
+      | Panic => Panic
+      end
+  end.
+
+(* no history panics, and the invariant holds at its end *)
+Lemma pm_hist_total cap shrink ops : forall pm,
+  pmap_inv cap shrink pm ->
+  exists pm' msgs stable, pm_hist cap shrink pm ops = Ok (pm', msgs, stable) /\ pmap_inv cap shrink pm'.
+Proof.
+  induction ops as [|op t IH]; intros pm Hinv; [do 3 eexists; split; [reflexivity|exact Hinv]|].
+  destruct op as [key st pid until take o1 o2|now]; cbn [pm_hist].
+  - destruct (pm_announce_refines cap shrink pm (pm_entries pm) key st pid until take o1 o2 Hinv (Permutation_refl _))
+      as (pm1 & rep & rem & Ha & Hinv1 & _).
+    rewrite Ha. destruct (IH pm1 Hinv1) as (pm2 & msgs & stable & Hh & Hinv2). rewrite Hh.
+    do 3 eexists; split; [reflexivity|exact Hinv2].
+  - destruct (pm_clean_ok cap shrink true pm now Hinv) as (Hc & Hinv1 & _). rewrite Hc.
+    destruct (IH _ Hinv1) as (pm2 & msgs & stable & Hh & Hinv2). rewrite Hh.
+    do 3 eexists; split; [reflexivity|exact Hinv2].
+Qed.
+
+Lemma hist_tally_law cap shrink ops : forall pm pm' msgs q,
+  pmap_inv cap shrink pm ->
+  pm_hist cap shrink pm ops = Ok (pm', msgs, true) ->
+  pid_count q (pm_entries pm') = fold_left (msg_delta q) msgs (pid_count q (pm_entries pm)).
+Proof.
+  induction ops as [|op t IH]; intros pm pm' msgs q Hinv Hh.
+  - cbn [pm_hist] in Hh. injection Hh as <- <-. reflexivity.
+  - destruct op as [key st pid until take o1 o2|now]; cbn [pm_hist] in Hh.
+    + destruct (pm_announce_refines cap shrink pm (pm_entries pm) key st pid until take o1 o2 Hinv (Permutation_refl _))
+        as (pm1 & rep & rem & Ha & Hinv1 & _).
+      rewrite Ha in Hh.
+      destruct (pm_hist cap shrink pm1 t) as [[[pm2 msgs2] stable]|] eqn:Ht; [|discriminate].
+      injection Hh as E1 E2 E3. subst pm' msgs.
+      apply andb_true_iff in E3. destruct E3 as [Hsame Hst]. subst stable.
+      rewrite fold_left_app.
+      assert (Hlaw := announce_tally_law cap shrink pm key st pid until take o1 o2 pm1 rep rem q Hinv Ha).
+      assert (Hid : forall p, rem = Some p -> p_id p = pid)
+        by (intros p Hp; subst rem; apply N.eqb_eq, Hsame).
+      specialize (Hlaw Hid). unfold announce_msgs in Hlaw. rewrite <- Hlaw.
+      apply (IH pm1 pm2 msgs2 q Hinv1 Ht).
+    + destruct (pm_clean_ok cap shrink true pm now Hinv) as (Hc & Hinv1 & _).
+      rewrite Hc in Hh.
+      destruct (pm_hist cap shrink _ t) as [[[pm2 msgs2] stable]|] eqn:Ht; [|discriminate].
+      injection Hh as E1 E2 E3. subst pm' msgs stable.
+      rewrite fold_left_app.
+      assert (Hlaw := clean_tally_law cap shrink pm now _ _ _ q Hinv Hc).
+      unfold removed_msgs in Hlaw |- *. rewrite <- Hlaw.
+      apply (IH _ pm2 msgs2 q Hinv1 Ht).
+Qed.
+
+(* from an empty torrent: what the statistics worker has tallied for an id IS the number of
+   stored entries carrying it, after every id-stable history *)
+Lemma hist_tally_exact cap shrink ops pm' msgs q :
+  pm_hist cap shrink (Small []) ops = Ok (pm', msgs, true) ->
+  tally_count (tally_run msgs) q = pid_count q (pm_entries pm').
+Proof.
+  intros Hh. unfold tally_run.
+  rewrite tally_fold_count by (split; [constructor|constructor]).
+  rewrite (hist_tally_law cap shrink ops (Small []) pm' msgs q (small_nil_inv cap shrink) Hh).
+  reflexivity.
+Qed.
+
 (* ---------------- export protocol ---------------- *)
 Lemma fs_step_path_preserved spill s st : st <> FRename -> f_path (fs_step spill s st) = f_path s.
 Proof. destruct st; cbn; intros H; try reflexivity. congruence. Qed.
